@@ -9,7 +9,7 @@ use rayon::prelude::*;
 use rtcm_rs::prelude::*;
 use serde_json::{json, Value as J};
 
-fn spec_json(s: &MsmSpec, perm_seed: u64) -> J {
+pub fn spec_json(s: &MsmSpec, perm_seed: u64) -> J {
     json!({"kind":"msm-spec","number":s.number(),"header":s.header,"sats":s.sats,"sigs":s.sigs,"cells":s.cells,"sat_data":s.sat_data,"sig_data":s.sig_data,"perm_seed":perm_seed})
 }
 fn spec_from_json(c: &J) -> Option<(MsmSpec, u64)> {
